@@ -153,6 +153,25 @@ def render_probe(q):
              "eval_call": "eval.call(null, %s)" % lit}[mk]
         return ("var T = %s; try { var v = %s; EACH(T, v); K(T, [v][0], {p: v}.p, typeof v, v === undefined, v === null); "
                 "if (v && typeof v === 'object') { for (var k in v) EACH(T, v[k]); K(T, Object.keys(v), Array.isArray(v)) } } catch (e) { K(T, e) }" % (t, e))
+    if fam == "rxu":
+        api, pat, fl, subj = q["api"], q["pat"], q["fl"], q["subj"]
+        body = {"exec": "var m = R.exec(S); EACH(T, m); if (m) K(T, m.index, m.input, R.lastIndex);",
+                "exec_twice": "R.exec(S); var m = R.exec(S); EACH(T, m); if (m) K(T, m.index, m.input); K(T, R.lastIndex);",
+                "match": "var m = S.match(R); EACH(T, m); if (m) K(T, m.index, m.input); K(T, R.lastIndex);",
+                "replace_fn": "K(T, S.replace(R, CBT(T, 'z')), R.lastIndex);", "search": "K(T, S.search(R), R.lastIndex);",
+                "split": "EACH(T, S.split(R)); K(T, R.lastIndex);", "test_lastIndex": "K(T, R.test(S), R.lastIndex, R.test(S), R.lastIndex);",
+                "matchdetached": "var e = R.exec; var m = e(S); EACH(T, m); if (m) K(T, m.index);"}[api]
+        return "var T = %s; try { var R = new RegExp('%s', '%s'); var S = '%s'; %s } catch (e) { K(T, e) }" % (t, pat.replace("\\", "\\\\"), fl, subj, body)
+    if fam == "rebind":
+        name, val, trig = q["name"], q["val"], q["trig"]
+        tr = {"null_read": "null.x", "undeclared": "zzUndeclared + 1", "repeat_neg": "'a'.repeat(-1)", "bad_regex": "new RegExp('(')",
+              "call_number": "(5)()", "new_number": "new (5)()", "bad_length": "[].length = -1", "json_bad": "JSON.parse('[')",
+              "array_literal": "[1, [2]].concat([3]).map(function (x) { return x })", "object_literal": "({a: {b: 1}}).a.b",
+              "string_method": "'abc'.split('b').join('-').toUpperCase()", "number_method": "(255).toString(16) + (1.5).toFixed(1)",
+              "regex_literal": "/a(b)?/.exec('ab')", "function_literal": "(function (a) { return arguments.length }).call(null, 1, 2)",
+              "for_in": "(function () { var ks = []; for (var k in {p: 1, q: 2}) ks.push(k); return ks })()", "plus_string": "1 + {} + [] + null"}[trig]
+        return ("var T = %s; var SAVED = %s; try { %s = %s; } catch (e0) { K(T, e0) } var out; try { out = %s; EACH(T, out); } catch (e) { K(T, e); "
+                "if (e && typeof e === 'object') K(T, e.message, e.name, e.stack) } try { %s = SAVED; } catch (e1) { }" % (t, name, name, val, tr, name))
     if fam == "rxcb":
         api, pat, subj = q["api"], q["pat"], q["subj"]
         if api == "replace_strpat":
@@ -330,10 +349,14 @@ def driver(case, api):
         # a generated program hands every value under test to __kind (classified on the host side, exactly)
         ctx = api.new_context(time_limit=10.0)
         kinds = {}
-        ctx.set("hostfn", lambda *a: 1)
-        ctx.set("hostnone", lambda *a: None)
+        hc = [0]
+        ctx.set("hostfn", lambda *a: (hc.__setitem__(0, hc[0] + 1), 1)[1])
+        ctx.set("hostnone", lambda *a: (hc.__setitem__(0, hc[0] + 1), None)[1])
         ctx.set("__kind", lambda tag, v=None, *rest: (kinds.setdefault((str(tag), kind_name(v)), 1), None)[1])
         out = api.eval_outcome(ctx, PROBE_PRE + case["src"], wall=60.0, cap=5_000_000)
+        if case.get("nocalls") and hc[0]:
+            # the script of this probe never calls the host function: its having run is reported as an observation TLC rejects
+            kinds[("host function ran %d time(s) without a call" % hc[0], "hostval:uncalled host function ran")] = 1
         return [{"id": case["id"], "kind": "trace", "seen": [{"k": kk, "at": tag} for (tag, kk) in sorted(kinds)], "o": out["o"],
                  "src": case["src"], "info": (out.get("type", "") + " " + out.get("msg", ""))[:120]}]
     if k == "call_grid":
